@@ -14,29 +14,29 @@ import (
 )
 
 type txSnap struct {
-	ok                 bool
-	phase              string
-	cc, ca, rc, ra     string
-	cord, rord, ridx   uint64
-	vals, rvals        string
-	ver                uint64
+	ok                     bool
+	phase                  string
+	cc, ca, rc, ra         string
+	cord, rord, ridx       uint64
+	vals, rvals            string
+	ver                    uint64
 	ccFail, caFail, raFail string
 }
 
 type snapshot struct {
-	txs                                 []txSnap // 1-based: txs[0] unused
-	cI, cC, cT, cO, cR                  uint64
-	aI, aT, aO, aR, aTerm               uint64
-	cVals, aVals                        string
-	state, master                       string
-	term                                uint64
-	cfgVer                              uint64
-	cfgOK                               bool
-	nomast                              bool
-	devUp                               bool
-	devEpoch                            int
-	devVals                             string
-	nlog                                int
+	txs                   []txSnap // 1-based: txs[0] unused
+	cI, cC, cT, cO, cR    uint64
+	aI, aT, aO, aR, aTerm uint64
+	cVals, aVals          string
+	state, master         string
+	term                  uint64
+	cfgVer                uint64
+	cfgOK                 bool
+	nomast                bool
+	devUp                 bool
+	devEpoch              int
+	devVals               string
+	nlog                  int
 }
 
 var psName = map[configapi.TransactionPhaseStatus_State]string{
@@ -103,7 +103,7 @@ func (w *world) snap() *snapshot {
 	ctx := context.Background()
 	s := &snapshot{txs: make([]txSnap, w.ntx+1)}
 	for i := uint64(1); i <= w.ntx; i++ {
-		t, err := w.rawTx.Get(ctx, configapi.TransactionID{Target: theTarget, Index: configapi.Index(i)})
+		t, err := w.rawTx.Get(ctx, configapi.TransactionID{Target: w.target, Index: configapi.Index(i)})
 		if err != nil {
 			continue
 		}
@@ -118,7 +118,7 @@ func (w *world) snap() *snapshot {
 			vals: fmtValues(t.Values), rvals: fmtValues(t.Status.Rollback.Values), ver: t.Version,
 			ccFail: failName(t.Status.Change.Commit), caFail: failName(t.Status.Change.Apply), raFail: failName(t.Status.Rollback.Apply)}
 	}
-	c, err := w.rawCfg.Get(ctx, cfgID())
+	c, err := w.rawCfg.Get(ctx, w.cfgID())
 	if err == nil {
 		s.cfgOK = true
 		s.cI, s.cC, s.cT, s.cO, s.cR = uint64(c.Committed.Index), uint64(c.Committed.Change), uint64(c.Committed.Target), uint64(c.Committed.Ordinal), uint64(c.Committed.Revision)
@@ -207,7 +207,9 @@ func events(prev, cur *snapshot, i uint64, devOK bool) []string {
 		return ev
 	}
 	pt, ct := prev.txs[i], cur.txs[i]
-	add := func(phase, stage, status string) { ev = append(ev, fmt.Sprintf("%s.%s.%s.%d", phase, stage, status, i)) }
+	add := func(phase, stage, status string) {
+		ev = append(ev, fmt.Sprintf("%s.%s.%s.%d", phase, stage, status, i))
+	}
 	// commit side
 	if cur.cT != prev.cT {
 		if cur.cT == i {
